@@ -49,8 +49,8 @@ RULE = (
     "are not all equal; text with at least one yield or at least one raw match."
 )
 EXHAUSTIVE = {
-    "quick": "is_url: every 3rd string (rotating with the seed) of the product 13 protocols x 3 userinfo x 22 hosts x 4 ports x 8 tails, each x 16 option settings x 2 whitespace wrappings; urls_from_text: all sequences of <= 2 fragments out of 40 and of <= 3 out of the 18 core fragments, x 2 joiners",
-    "thorough": "is_url: the full product 13 protocols x 3 userinfo x 22 hosts x 4 ports x 8 tails x 16 option settings x 2 whitespace wrappings; urls_from_text: all sequences of <= 3 fragments out of 40 and of <= 4 out of the 18 core fragments, x 2 joiners",
+    "quick": "is_url: the full product 13 protocols x 3 userinfo x 22 hosts x 4 ports x 8 tails x 16 option settings x 2 whitespace wrappings; urls_from_text: all sequences of <= 3 fragments out of 40, x 2 joiners ('' and ' ')",
+    "thorough": "is_url: the full product 13 protocols x 3 userinfo x 22 hosts x 4 ports x 8 tails x 16 option settings x 2 whitespace wrappings; urls_from_text: all sequences of <= 3 fragments out of 40 and of <= 4 out of the 24 core fragments, x 2 joiners ('' and ' ')",
 }
 TRUSTED = [
     "Lean 4 kernel; axioms of every listed theorem audited to be within {propext, Classical.choice, Quot.sound}",
@@ -97,11 +97,12 @@ CORPUS_U = [
 ]
 FRAGS_CORE = ["see", ".", ",", ")", "…", "»", "”", "http://a.com", "https://b.org/x?y=1", "a.com",
               "[link](http://a.com)", "[http://a.com/](http://b.com)", "[http://a.com/](",
-              "[http://a.com/a](b c)", "http://a.c…", "http://é.fr/é", "(", "["]
-FRAGS_MORE = ["hello", "«", "!", "\"", "](", "]", "//a.com", "ftp://x.yz/p", "http://a", "http://localhost/x",
-              "http://127.0.0.1:80", "mailto://a.com", "http://a.com/x).", "http://a.com,http://b.com",
+              "[http://a.com/a](b c)", "http://a.c…", "http://é.fr/é", "(", "[", "](", "\u3000",
+              "//a.com", "ftp://x.yz/p", "!", "http://a.com/x)."]
+FRAGS_MORE = ["hello", "«", "\"", "]", "http://a", "http://localhost/x",
+              "http://127.0.0.1:80", "mailto://a.com", "http://a.com,http://b.com",
               "http://a.comhttp://b.com", "[http://a.com/]()", "[http://a.com/](b)", "http://a.com/…",
-              "\u3000", "\u2028", "http://a.co\u3000", "http://日本.jp/🍊"]
+              "\u2028", "http://a.co\u3000", "http://日本.jp/🍊"]
 FRAGS = FRAGS_CORE + FRAGS_MORE
 CORPUS_T = [
     "[http://a.com/](", "[http://a.com](",                 # 926bacb (D37) IndexError
@@ -149,27 +150,25 @@ def _texts(frags, n, joiners=("", " ")):
 
 
 def cases(rng, tier):
-    seed_rot = rng.randint(0, 2)
     for i, s in enumerate(CORPUS_U):
         yield _ucase(s, i)
     for t in CORPUS_T:
         yield {"k": "t", "s": t}
     prod = _product()
     for i, s in enumerate(prod):
-        if tier == "thorough" or i % 3 == seed_rot:
-            yield _ucase(s, i)
+        yield _ucase(s, i)
     seen = set()
 
     def texts():
         if tier == "thorough":
             return itertools.chain(_texts(FRAGS, 3), _texts(FRAGS_CORE, 4))
-        return itertools.chain(_texts(FRAGS, 2), _texts(FRAGS_CORE, 3))
+        return _texts(FRAGS, 3)
 
     for t in texts():
         if t not in seen:
             seen.add(t)
             yield {"k": "t", "s": t}
-    n = 1500 if tier == "quick" else 20000
+    n = 3000 if tier == "quick" else 60000
     for i in range(n):
         base = rng.choice(prod) if rng.random() < 0.7 else rng.choice(CORPUS_U)
         yield _ucase(_mutate(rng, base), rng.randint(0, 5))
@@ -289,9 +288,27 @@ def _host_of(s):
         return None
 
 
+_TLDS = None
+
+
+def _known_tld(label):
+    """the label is in the TLD table of ural/tld_data.py (as is, or once idna-decoded)"""
+    global _TLDS
+    if _TLDS is None:
+        import ural.tld_data as td
+
+        _TLDS = set(td.TLDS)
+    lab = label.lstrip(".").lower()
+    if lab in _TLDS:
+        return True
+    try:
+        return lab.encode("utf8").decode("idna") in _TLDS
+    except UnicodeError:
+        return False
+
+
 def _oracle_u(case):
     from ural import is_special_host
-    from ural.tld import is_valid_tld
 
     s, wrapped = _variants(case)
     res = dict(zip(OPTS, _is_url_all(s)))
@@ -314,7 +331,7 @@ def _oracle_u(case):
         if o[1] and res[o]:
             h = _host_of(s)
             if h and not is_special_host(h):
-                if not is_valid_tld(h.rsplit(".", 1)[-1]):
+                if not _known_tld(h.rsplit(".", 1)[-1]):
                     return "tld_aware accepts %r (%s) whose host %r is not special and has an unknown last label" % (
                         s, _fmt(o), h)
     return None
